@@ -378,7 +378,61 @@ def check_dict_dir(prog: Program, res: Result) -> None:
                             f"{inst}: the bond-order matrix needs matrix "
                             f"positions, the dictionary yields {vk}",
                             instance=inst)
-    res.need("R-DICT-DIR", n, 4, "dictionary index sites")
+    # ... whatever way the index is obtained: a local that holds an
+    # identifier (atom1 = idx_map_num_dict[..]) is no matrix position
+    simple: dict[str, list[ast.AST]] = {}
+    for node in ast.walk(fi.node):
+        if isinstance(node, ast.Assign) and len(node.targets) == 1 and \
+                isinstance(node.targets[0], ast.Name):
+            simple.setdefault(node.targets[0].id, []).append(node.value)
+
+    def kind_of(e, depth=0):
+        if depth > 6:
+            return None
+        if isinstance(e, ast.Subscript) and isinstance(
+                e.value, ast.Name) and e.value.id in kinds:
+            return kinds[e.value.id][1]
+        if isinstance(e, ast.Name):
+            if e.id in var_kind:
+                return var_kind[e.id]
+            ks = {kind_of(v, depth + 1) for v in simple.get(e.id, [])}
+            if len(ks) == 1:
+                return ks.pop()
+        return None
+    mat = fi.params()[1] if len(fi.params()) > 1 else "bond_order_mat"
+    seen_sites = set()
+    for node in ast.walk(fi.node):
+        if isinstance(node, ast.Subscript):
+            base = node.value
+            while isinstance(base, ast.Subscript):
+                base = base.value
+            if not (isinstance(base, ast.Name) and base.id in (
+                    mat, "bond_order_mat")):
+                continue
+            idxs = list(node.slice.elts) if isinstance(
+                node.slice, ast.Tuple) else [node.slice]
+            for ix in idxs:
+                if isinstance(ix, ast.Subscript) and isinstance(
+                        ix.value, ast.Name) and ix.value.id in kinds:
+                    continue            # judged above
+                k_ = kind_of(ix)
+                key_ = norm(ix)
+                if k_ is None or key_ in seen_sites:
+                    continue
+                seen_sites.add(key_)
+                n += 1
+                inst = f"set_bond_orders: matrix index `{key_}` is a matrix position"
+                if k_ == "ArrIdx":
+                    res.ok("R-DICT-DIR", inst, fi.loc(node))
+                else:
+                    res.bad("R-DICT-DIR", f"set_bond_orders: matrix index "
+                            f"{key_} ({k_})", fi.loc(node),
+                            f"{inst}: `{key_}` holds a value of kind {k_}; "
+                            "the bond-order matrix is ordered like "
+                            "graph.atoms, so this reads the order of another "
+                            "bond (or raises) unless the identifiers are "
+                            "0..n-1 in insertion order", instance=inst)
+    res.need("R-DICT-DIR", n, 3, "dictionary / matrix index sites")
     # RDKit atoms are created in graph.atoms order (declared coercion
     # ArrIdx == RdIdx for the charge / radical loops)
     mk = prog.fn("graph2rdmol:mol_graph_to_rdmol")
